@@ -52,6 +52,9 @@ pub fn scalar_id(s: &Scalar) -> Value {
 pub fn point_id(p: &RistrettoPoint) -> Value {
     json!(hex(p.compress().as_bytes()))
 }
+pub fn hex32(b: &[u8; 32]) -> String {
+    b.iter().map(|x| format!("{:02x}", x)).collect()
+}
 pub fn events_len() -> usize {
     0
 }
